@@ -199,11 +199,14 @@ def run_check(spec, tier, seed):
                 traceback.print_exc()
                 crashed = True
     # an obligation refuted without a replayable model: second search = the bounded driver
+    known_sigs = set(k.get('signature') for k in load_known_findings() if k.get('property') == pid and k.get('status', 'open') == 'open')
     for x, extra, modname in unconfirmed:
-        related = [f for f in bres.failures if getattr(f, 'function', None) in (None, x['function'])]
+        # failing inputs of recorded known findings are never used as the witness of a refuted obligation (the refutation would
+        # inherit the finding's signature and be filtered with it)
+        related = [f for f in bres.failures if getattr(f, 'function', None) in (None, x['function']) and f.signature not in known_sigs]
         if related:
             f0 = related[0]
-            f = Failure(f0.signature, f0.detail, f0.replay_code, obligation=x['obligation'],
+            f = Failure("%s|input:%s" % (x['obligation'], f0.signature), f0.detail, f0.replay_code, obligation=x['obligation'],
                         source='obligation refuted; failing input found by the bounded driver')
             f.extra = extra
             if not any(v[0].signature == f.signature for v in violations):
